@@ -396,10 +396,13 @@ class StoreWorld(object):
 WRITE_FAULTS = [('CRASH', 'write'), ('ENOSPC', 'write'), ('EIO', 'write'), ('EACCES', 'open_w'), ('ENOSPC', 'mkdir'),
                 ('EIO', 'stat')]
 READ_FAULTS = [('EIO', 'listdir'), ('EIO', 'stat'), ('EIO', 'open_r'), ('EACCES', 'open_r'), ('EACCES', 'listdir'), ('EIO', 'read'),
-               ('EIO', 'read'), ('VANISH', 'open_r')]
+               ('EIO', 'read'), ('VANISH', 'open_r'), ('VANISH', 'stat')]
 
 
 def gen_fault(rng, table, max_nth=4):
     kind, callk = rng.choice(table)
-    return {'kind': kind, 'call': callk, 'nth': rng.choice([0, 0, 1, 1, 2, 3][:max_nth + 2]),
-            'frac': rng.choice([0.0, 0.01, 0.3, 0.5, 0.9, 0.999]), 'chunk': rng.choice([0, 0, 0, 1, 2])}
+    f = {'kind': kind, 'call': callk, 'nth': rng.choice([0, 0, 1, 1, 2, 3][:max_nth + 2]),
+         'frac': rng.choice([0.0, 0.01, 0.3, 0.5, 0.9, 0.999]), 'chunk': rng.choice([0, 0, 0, 1, 2])}
+    if callk == 'stat' and max_nth >= 4:
+        f['nth'] = rng.randrange(0, 20)      # one operation stats many names: reach the later ones too
+    return f
